@@ -100,7 +100,7 @@ Section Walk.
       + lia.
       + intros x [<-|Hx]; [lia|]. specialize (HV x Hx). lia.
       + intros i Hi. rewrite I2 by lia. apply HI. lia.
-      + exists g'. split. { rewrite R. f_equal. lia. } split; [congruence|]. split; [congruence|].
+      + exists g'. split. { etransitivity; [exact R|]. f_equal. lia. } split; [congruence|]. split; [congruence|].
         split; [|split].
         * intros i Hi. destruct (Nat.eq_dec i b) as [->|Ne]; [exact J2|apply J1; lia].
         * rewrite J3 by lia. exact I1.
@@ -119,7 +119,8 @@ Section Walk.
     - lia.
     - intros x [].
     - intros i _. apply Z.
-    - exists g'. rewrite R. cbn [Nat.max Nat.add]. repeat split; auto.
+    - exists g'. split; [etransitivity; [exact R|reflexivity]|].
+      split; [exact B|]. split; [exact N|]. split; [exact J1|]. split; [exact J2|].
       intros i Hi. rewrite J3 by exact Hi. apply Z.
   Qed.
 
@@ -160,6 +161,14 @@ Section Walk.
   (* ---- NormalizeBlocks, pass 1: the chain is merged into block 0 ---- *)
   Lemma ni_nil body f g s v : norm_iter body f g s [] v = (g, s).
   Proof. destruct f; reflexivity. Qed.
+
+  Lemma ni_step body f g s w q v :
+    norm_iter body (S f) g s (w :: q) v =
+    let nexts := out_of g w in
+    let '(g1, s1) := body g s w in
+    let '(q1, v1) := enqueue nexts q v in
+    norm_iter body f g1 s1 q1 v1.
+  Proof. reflexivity. Qed.
 
   Definition single (g : graph) : Prop :=
     exists ops, g_blk g 0 = Some (BSimple ops None) /\ Forall P ops.
@@ -242,17 +251,17 @@ Section Walk.
     (forall i, i < T -> g_inc g i = [S i]) -> g_inc g T = [] ->
     exists g', normalize g T = (g', 0) /\ single g' /\ g_next g' = g_next g /\ wf g'.
   Proof.
-    intros W N D HI HT. unfold normalize. rewrite N.
+    intros W N D HI HT. unfold normalize. rewrite N. unfold id in *.
     assert (P1 : exists g', norm_iter norm_body1 (S (S T)) g T [T] [T] = (g', 0) /\
                             single g' /\ g_next g' = g_next g /\ wf g').
-    { cbn [norm_iter]. unfold norm_body1 at 1. rewrite HT.
+    { rewrite ni_step. unfold norm_body1 at 1. rewrite HT.
       destruct T as [|T'].
       - rewrite (dchain_out0 g 0 D). cbn [enqueue fold_left]. rewrite ni_nil.
         exists g. split; [reflexivity|]. split; [exact (proj1 D)|]. split; [reflexivity|exact W].
       - destruct (proj2 D T' (Nat.lt_succ_diag_r T')) as (opsT & BT & PT).
         rewrite (dchain_outS g (S T') T' D) by lia.
         unfold enqueue. cbn [fold_left mem_id]. destruct (Nat.eqb_spec T' (S T')); [lia|]. cbn [orb app].
-        destruct (n1_chain T' (S T') g [S T'; T'] opsT) as (g' & R & SG & I0 & N' & W').
+        destruct (n1_chain T' (S (S T')) g [S T'; T'] opsT) as (g' & R & SG & I0 & N' & W').
         + lia.
         + exact W.
         + lia.
@@ -263,8 +272,8 @@ Section Walk.
         + exact HT.
         + intros x [<-|[<-|[]]]; lia.
         + exists g'. split; [exact R|]. split; [exact SG|]. split; [exact N'|exact W']. }
-    destruct P1 as (g1 & R1 & SG & N1 & W1). rewrite R1. rewrite N1, N.
-    rewrite (n2_single (S T) g1 SG). exists g1. split; [reflexivity|]. split; [exact SG|]. split; [exact N1|exact W1].
+    destruct P1 as (g1 & R1 & SG & N1 & W1). rewrite R1.
+    rewrite (n2_single (S T) g1 SG). exists g1. split; [reflexivity|]. split; [exact SG|]. split; [congruence|exact W1].
   Qed.
 
   Lemma validate_tree_single g : single g -> validate_tree g 0 = true.
